@@ -347,7 +347,7 @@ Inductive levent :=
   | LSnapshot (rows : list srow)
   | LNop
   | LPlaceRefused (name tid strat sel size price : Z)      (* strategy / controls refuse a placement: order.violation(), never in the blotter, but listed in trade.orders *)
-  | LRefused (name : Z)                                     (* a trading control refuses a cancel/update/replace: order.violation() on the live order *)
+  | LRefused (name : Z)                                     (* a trading control refuses a cancel/update/replace: the placed order keeps its status *)
   | LRestart.                                               (* a new process: local state gone, the exchange keeps its bets *)
 
 Definition lstate0 (cs : list status) : lstate :=
@@ -372,7 +372,7 @@ Definition lstep (s : lstate) (e : levent) : lstate :=
                   lo_in_live := false; lo_in_blotter := false; lo_newprice := None |} in
       {| ls_orders := ls_orders s ++ [o]; ls_trades := ls_trades s; ls_ctx := ls_ctx s; ls_bet_lookup := ls_bet_lookup s;
          ls_tx := ls_tx s; ls_tx_failed := ls_tx_failed s; ls_next_name := ls_next_name s; ls_next_trade := Z.max (ls_next_trade s) (t + 1); ls_complete := ls_complete s |}
-  | LRefused n => order_status s n SViolation
+  | LRefused n => s
   | LRestart => {| ls_orders := []; ls_trades := []; ls_ctx := []; ls_bet_lookup := []; ls_tx := 0; ls_tx_failed := 0;
                    ls_next_name := ls_next_name s; ls_next_trade := ls_next_trade s; ls_complete := ls_complete s |}
   end.
